@@ -180,4 +180,8 @@ example : ¬ IdentOK "a[0]" := by
   have : "a[0]".toList = ['a', '[', '0', ']'] := by decide
   rw [this]; decide
 
+/-- the repaired cleaning of an operand list (K54): a carriage return is dropped like every other white-space character
+    (`"".join(s.split())`), so a list wrapped with CRLF line ends no longer yields the net name `"\rb"` -/
+theorem squeeze_drops_cr : Bench.squeeze "a,\r\n b" = "a,b" := by decide
+
 end CG.C15
